@@ -402,7 +402,9 @@ func (i *Iterator) Close() (err error) {
 // accumulate reads the underlying data contained in the view from OS and appends them
 // to the frame. accumulate returns false if iterator must stop moving.
 func (i *Iterator) accumulate(ctx context.Context) bool {
-	if !i.internal.TimeRange().OverlapsWith(i.view) {
+	// A zero-span time range means the domain iterator never loaded a domain (no data
+	// within bounds), so there is nothing to slice even when the view starts at zero.
+	if i.internal.TimeRange().Span().IsZero() || !i.internal.TimeRange().OverlapsWith(i.view) {
 		return false
 	}
 	offset, alignment, size, err := i.sliceDomain(ctx)
